@@ -121,6 +121,14 @@ Theorem C02_mresample_bounded : forall (A B : Type) (o : B) (n0 : nat) (idx0 thr
 Proof. exact (@mresample_safe). Qed.
 Print Assumptions C02_mresample_bounded.
 
+(* resample with old / new given as a Stream (step stream = source 1): the input is read as for a constant step,
+   the step stream one item per output ALREADY delivered (k-1 for k outputs): no look-ahead of a whole step *)
+Theorem C02_mresample_tv_bounded : forall (A B : Type) (o : B) (n0 : nat) (idx0 thr stp one : Z) (c : nat -> bool),
+  (0 < one)%Z -> (0 <= stp)%Z ->
+  safe c (need_resample_tv c n0 idx0 thr stp one) (@mresample_tv A B o n0 idx0 thr stp one).
+Proof. exact (@mresample_tv_safe). Qed.
+Print Assumptions C02_mresample_tv_bounded.
+
 Theorem C02_mcycle_bounded : forall (A : Type) (c : nat -> bool), safe c need_id (@mcycle A).
 Proof. exact (@mcycle_safe). Qed.
 Print Assumptions C02_mcycle_bounded.
